@@ -75,7 +75,7 @@ class Harness:
         self.encodes = []
         self.bound = ""
         self.finding = None
-        self.cuts = []
+        self.cuts = ["nodrop"]   # default: deallocation (drop glue) is not modelled; '//@ cuts: none' turns it off
         self.unwind = None
         self.unwindset = []
 
@@ -128,7 +128,10 @@ def parse_harness_file(path, parent):
             elif k == "finding":
                 cur.finding = v
             elif k == "cuts":
-                cur.cuts += v.split()
+                if v.strip() == "none":
+                    cur.cuts = []
+                else:
+                    cur.cuts = sorted(set(cur.cuts + v.split()))
             elif k == "unwindset":
                 cur.unwindset += v.split()
             continue
@@ -203,30 +206,62 @@ class Stage:
         shutil.rmtree(self.root, ignore_errors=True)
 
     # -- kani codegen ---------------------------------------------------------------
-    def codegen(self, names=None):
-        """Compile all harnesses once; returns {harness name: metadata entry}."""
-        t0 = time.time()
+    def _codegen_group(self, idx, names):
+        tgt = self.target if idx == 0 else "%s-g%d" % (self.target, idx)
+        if idx != 0 and not os.path.isdir(tgt):
+            src = self.target if os.path.isdir(self.target) else None
+            if src:
+                subprocess.check_call(["cp", "-a", src, tgt])
         cmd = ["cargo", "kani", "--lib", "-Z", "stubbing", "-Z", "unstable-options",
-               "--no-memory-safety-checks", "--only-codegen", "--target-dir", self.target]
-        for n in (names or []):
-            cmd += ["--harness", n]
-        if names:
-            cmd += ["--exact"] if False else []
+               "--no-memory-safety-checks", "--only-codegen", "--target-dir", tgt]
+        if names is not None:
+            cmd.append("--exact")
+            for n in names:
+                cmd += ["--harness", n]
         p = subprocess.run(cmd, cwd=self.crate, env=env_offline(), stdout=subprocess.PIPE,
                            stderr=subprocess.STDOUT, text=True)
-        self.codegen_log = p.stdout
-        self.codegen_s = time.time() - t0
         if p.returncode != 0:
-            open(os.path.join(self.root, "codegen.log"), "w").write(p.stdout)
-            return None
-        metas = glob.glob(os.path.join(self.target, "kani", "*", "debug", "build",
+            return None, p.stdout
+        metas = glob.glob(os.path.join(tgt, "kani", "*", "debug", "build",
                                        "jsonlogic-rs", "*", "out", "*.kani-metadata.json"))
         metas.sort(key=os.path.getmtime)
         md = json.load(open(metas[-1]))
         out = {}
         for h in md["proof_harnesses"]:
             out[h["pretty_name"].split("::")[-1]] = h
-        return out
+        return out, p.stdout
+
+    def codegen(self, harnesses=None, group_size=7):
+        """Compile the selected harnesses (Kani emits one goto binary per harness, ~6 s each, serially);
+        the set is split into groups compiled in parallel, each with its own target dir.
+        Returns {harness name: metadata entry} or None when the staged crate does not compile."""
+        t0 = time.time()
+        if not harnesses:
+            meta, logtxt = self._codegen_group(0, None)
+            self.codegen_log, self.codegen_s = logtxt, time.time() - t0
+            if meta is None:
+                open(os.path.join(self.root, "codegen.log"), "w").write(logtxt)
+            return meta
+        names = [h.modpath() for h in harnesses]
+        ng = max(1, min(NCPU // 2, (len(names) + group_size - 1) // group_size))
+        groups = [names[i::ng] for i in range(ng)]
+        # group 0 first alone for a moment is not needed: deps come from the cache copy
+        meta = {}
+        logs = []
+        with concurrent.futures.ThreadPoolExecutor(max_workers=ng) as ex:
+            futs = [ex.submit(self._codegen_group, i, g) for i, g in enumerate(groups)]
+            for f in futs:
+                m, l = f.result()
+                logs.append(l)
+                if m is None:
+                    meta = None
+                elif meta is not None:
+                    meta.update(m)
+        self.codegen_log = "\n".join(logs)
+        self.codegen_s = time.time() - t0
+        if meta is None:
+            open(os.path.join(self.root, "codegen.log"), "w").write(self.codegen_log)
+        return meta
 
 
 # ------------------------------------------------------------------------------------
@@ -274,65 +309,57 @@ def list_goto_functions(binary):
 
 
 CUTSETS = {
-    # name: (regex over pretty names, mode)
-    #   mode "unreachable": body := assert(false); assume(false)  (checked cut, R11)
-    #   mode "noop":        body := return (nondet)               (drop glue: deallocation not modelled)
-    "maps": (r"BTreeMap<|serde_json::Map<|collections::btree::|btree_map::|btree::", "unreachable"),
-    "vecvalue": (r"Vec<serde_json::Value>.*(clone|drop|eq)|drop_in_place::<std::vec::Vec<serde_json::Value>>|<\[serde_json::Value\]", "unreachable"),
-    "evaluate": (r"<op::(Operation|LazyOperation|DataOperation)(<'_>)? as Parser(<'_>)?>::evaluate", "unreachable"),
-    "nodrop": (r"drop_in_place::<", "noop"),
+    # name: (regex over pretty names, mode, regex over mangled names used to give "noop" bodies)
+    #   mode "unreachable": body removed; the driver's generic step turns it into assert(false); assume(false)
+    #                       (a CHECKED cut, R11: reaching it makes the run inconclusive)
+    #   mode "noop":        body := return (nondet)   (drop glue: deallocation is not modelled)
+    "maps": (r"BTreeMap<|serde_json::Map<|collections::btree::|btree_map::|btree::", "unreachable", None),
+    "vecvalue": (r"Vec<serde_json::Value>.*(clone|drop|eq)|<\[serde_json::Value\]", "unreachable", None),
+    "evaluate": (r"<op::(Operation|LazyOperation|DataOperation)(<'_>)? as Parser(<'_>)?>::evaluate", "unreachable", None),
+    "nodrop": (r"(drop_in_place|drop_glue)::<", "noop", ".*(13drop_in_place|9drop_glue).*"),
 }
 
 
 def postprocess(symtab, mangled, workdir, cuts):
-    """Reproduce the Kani driver's post-link steps, plus the asserted-cut pass."""
+    """Reproduce the Kani driver's post-link steps, plus the cut pass."""
     os.makedirs(workdir, exist_ok=True)
     a = os.path.join(workdir, "a.out")
     info = {"cuts": {}}
-    steps = [
-        ["goto-cc", symtab, KANI_LIB_C, "-o", a],
-        ["goto-cc", a, "--function", mangled, "-o", a],
-        ["goto-instrument", "--add-library", "--no-malloc-may-fail", a, a],
-    ]
-    for s in steps:
-        rc, so, _, _ = run(s)
+
+    def step(cmd):
+        rc, so, _, _ = run(cmd)
         if rc != 0:
-            return None, {"error": "step failed: %s\n%s" % (" ".join(s[:3]), (so or "")[-2000:])}
+            return "step failed: %s\n%s" % (" ".join(cmd[:3]), (so or "")[-2000:])
+        return None
+
+    err = step(["goto-cc", symtab, KANI_LIB_C, "--function", mangled, "-o", a])
+    if err:
+        return None, {"error": err}
+    lib = ["--add-library", "--no-malloc-may-fail"]
     if cuts:
+        err = step(["goto-instrument"] + lib + [a, a])
+        if err:
+            return None, {"error": err}
         fns = list_goto_functions(a)
+        args = []
         for c in cuts:
-            rx, mode = CUTSETS[c]
+            rx, mode, mrx = CUTSETS[c]
             sel = sorted({mg for (pretty, mg) in fns if re.search(rx, pretty)})
             info["cuts"][c] = {"mode": mode, "functions": len(sel)}
-            if not sel:
-                continue
-            # remove bodies in chunks (command-line length)
-            for i in range(0, len(sel), 200):
-                args = []
-                for f in sel[i:i + 200]:
-                    args += ["--remove-function-body", f]
-                rc, so, _, _ = run(["goto-instrument"] + args + [a, a])
-                if rc != 0:
-                    return None, {"error": "cut failed: " + (so or "")[-1000:]}
-            if mode == "noop":
-                # give the removed functions an empty body now, so that the generic
-                # "undefined function => assert false" step below leaves them alone
-                rx_m = "|".join(re.escape(f) for f in sel)
-                for i in range(0, len(sel), 100):
-                    rx_m = "(" + "|".join(re.escape(f) for f in sel[i:i + 100]) + ")"
-                    rc, so, _, _ = run(["goto-instrument", "--generate-function-body", rx_m,
-                                        "--generate-function-body-options", "nondet-return", a, a])
-                    if rc != 0:
-                        return None, {"error": "noop body failed: " + (so or "")[-1000:]}
-    steps = [
-        ["goto-instrument", "--generate-function-body-options", "assert-false-assume-false",
-         "--generate-function-body", ".*", "--drop-unused-functions", a, a],
-        ["goto-instrument", "--ensure-one-backedge-per-target", a, a],
-    ]
-    for s in steps:
-        rc, so, _, _ = run(s)
-        if rc != 0:
-            return None, {"error": "step failed: %s\n%s" % (" ".join(s[:3]), (so or "")[-2000:])}
+            for f in sel:
+                args += ["--remove-function-body", f]
+            if mode == "noop" and sel:
+                args += ["--generate-function-body", mrx, "--generate-function-body-options", "nondet-return"]
+        if args:
+            err = step(["goto-instrument"] + args + [a, a])
+            if err:
+                return None, {"error": err}
+        lib = []
+    err = step(["goto-instrument"] + lib + ["--generate-function-body-options", "assert-false-assume-false",
+                "--generate-function-body", ".*", "--drop-unused-functions",
+                "--ensure-one-backedge-per-target", a, a])
+    if err:
+        return None, {"error": err}
     return a, info
 
 
